@@ -6,6 +6,9 @@ mod rawsock;
 mod rec;
 mod fam_valid;
 mod fam_srv;
+mod fam_fe;
+mod fam_send;
+mod fam_locks;
 
 use std::io::{self, BufRead, Write};
 
@@ -55,6 +58,9 @@ fn fam_dispatch(fam: &str, line: &str) -> Option<String> {
     match fam {
         "valid" => Some(fam_valid::run(line)),
         "srv" => Some(fam_srv::run(line)),
+        "fe" => Some(fam_fe::run(line)),
+        "send" => Some(fam_send::run(line)),
+        "locks" => Some(fam_locks::run(line)),
         _ => None,
     }
 }
